@@ -222,7 +222,8 @@ static void sec_concurrent(vf::Ctx& c) {
     int delay_pct = (int) c.rng.below(4) * 15;                    // 0, 15, 30, 45 % of lock operations perturbed
     bool use_mail = c.rng.chance(50);
     uint64_t seed = c.rng.next();
-    c.begin([=] { return vf::J().k("threads", T).k("ops_per_thread", ops).k("delay_pct", delay_pct).k("cross_thread_handoff", use_mail).k("script_seed", (unsigned long long) seed).str(); });
+    int save_restore_pairs = c.rng.chance(50) ? c.rng.range(1, 2) : 0;
+    c.begin([=] { return vf::J().k("threads", T).k("ops_per_thread", ops).k("delay_pct", delay_pct).k("cross_thread_handoff", use_mail).k("save_restore_pairs_after_switch", save_restore_pairs).k("script_seed", (unsigned long long) seed).str(); });
 
     // private detector, created and destroyed with the overloads off
     MemoryLeakWarningPlugin::saveAndDisableNewDeleteOverloads();
@@ -247,6 +248,8 @@ static void sec_concurrent(vf::Ctx& c) {
     }
     MemoryLeakWarningPlugin::restoreNewDeleteOverloads();
     MemoryLeakWarningPlugin::turnOnThreadSafeNewDeleteOverloads();
+    // users bracket third-party code with save/restore; thread-safe mode must survive such a pair (no allocation in between)
+    if (save_restore_pairs) for (int i = 0; i < save_restore_pairs; i++) { MemoryLeakWarningPlugin::saveAndDisableNewDeleteOverloads(); MemoryLeakWarningPlugin::restoreNewDeleteOverloads(); }
     for (int i = 1; i <= T; i++) pthread_create(&g_workers[i].th, nullptr, worker_main, &g_workers[i]);
     for (int i = 1; i <= T; i++) pthread_join(g_workers[i].th, nullptr);
     pthread_barrier_destroy(&g_barrier);
@@ -312,6 +315,7 @@ static void sec_concurrent(vf::Ctx& c) {
     c.count("null_results", nulls);
     { uint64_t rn = 0, cal = 0; for (int i = 1; i <= T; i++) { rn += g_workers[i].by_kind[6]; cal += g_workers[i].by_kind[7]; } c.count("allocations_via_realloc_null", rn); c.count("allocations_via_calloc", cal); }
     c.count(std::string("runs_with_threads_") + std::to_string(T));
+    if (save_restore_pairs) c.count("runs_with_save_restore_pair_after_switch");
     uint64_t h = vf::fnv(g_log, sizeof(int) * (g_log_n < 64 ? g_log_n : 64));
     if (g_handoffs >= 100) { char b[40]; snprintf(b, sizeof b, "%016llx", (unsigned long long) h); c.nontrivial(b); }
 }
